@@ -5,7 +5,7 @@ import vlib, runscen
 THEOREMS = [("Properties.C13", "C13_holds"), ("Properties.C13", "C13_any_limit_holds"), ("AsFound.C13", "C13_as_found_refuted'")]
 CORRESPONDENCE = "monorail run killed at guarded points / by SIGKILL == Model.Tracking.crash (every strict prefix of run_ops)"
 LEVEL_NOTE = ("Coq theorem C13_holds (every M >= 2, every healthy store, every strict prefix of a run's file-system effects): result show / log show are unchanged, the "
-              "store stays healthy, the next run uses the same slot and every other retained run is untouched; the checkpoint is not among a run's effects. Partial: "
+              "store stays healthy, the next run uses the same slot and every other retained run is untouched; the checkpoint is not among a run's effects. C13_any_limit_holds: the same for a store left by runs that each ran under their own max_retained_runs (the pointer may name a slot above the present limit), tied by scenarios that lower the limit under the pointer before the crash. Partial: "
               "file-system atomicity (rename(2), invisibility of a killed process's partial writes to other files) is assumed. Tied to the code by killing the real "
               "binary at every guarded point (verif::point abort) and by SIGKILL at random times while children run, then checking result show, log show, checkpoint show, "
               "the on-disk state against the model, and that a fresh run succeeds; and, without any hook, by killing the run (strace signal injection) at the k-th "
@@ -14,7 +14,7 @@ TRUSTED = ["Coq 8.16.1 kernel; no axioms", "POSIX rename is atomic; a killed pro
            "hooks: verif::point call sites (guarded) and the harness's SIGKILL timing", "strace 6.1 (-f -b execve -e inject=<call>:signal=SIGKILL:when=k; counts are per call name and thread); skipped and counted when ptrace is unavailable", "modelled, not verified: the Rust source"]
 RULE = ("M in {2,3} with 1..M+1 completed runs, and M in {10,11} (thorough: 10,11,12,20) with exactly M completed runs so that the crash hits the wrap-around from slot M to slot 1; a checkpoint, then one run killed at each guarded point (slot set-up, before/after the result file, inside the pointer save, "
         "during execution between compressor shutdown messages) or by SIGKILL after a random delay while children sleep; non-trivial = a completed run existed before the crash; "
-        "plus one syscall-level crash sweep per run of the check (thorough: four); distinct by (M, history length, crash point)")
+        "plus one syscall-level crash sweep per run of the check (thorough: four); plus max_retained_runs lowered under the pointer before the crash (5->3 after 4 runs, 4->2 after 4; thorough: six such); distinct by (M, history length, crash point)")
 
 CFG = {"targets": [{"path": "libs/a"}, {"path": "libs/b", "uses": ["libs/a"]}, {"path": "app", "uses": ["libs/b"]}]}
 POINTS = ["after_lock_run", "run_after_slot_setup", "compressor_between_shutdowns", "compressor_before_join", "run_before_store_result",
